@@ -95,6 +95,81 @@ Section BalancePrintSpec.
     (forall p, In p (map fst (tree_leaves NM t)) -> In p (row_paths rows)) /\
     (forall p, In p (tree_forks t) -> In p (row_paths rows)).
 
+  (** ** Which node totals stand behind a row (fix 3cc3ec3: a chain of single
+      children is joined into one row only while the totals are Go-equal) *)
+
+  (** for each row: the full path of its parent row (closest preceding row of
+      smaller level), the segments of its own label, the amount *)
+  Fixpoint decode_own_from (st : stack) (rows : list row) : list (list bytes * list bytes * T) :=
+    match rows with
+    | [] => []
+    | (x, lvl, label) :: rest =>
+        let st' := pop_to lvl st in
+        let own := split_on c_slash label in
+        (stack_path st', own, x) :: decode_own_from ((lvl, stack_path st' ++ own) :: st') rest
+    end.
+
+  Definition decode_own (rows : list row) : list (list bytes * list bytes * T) :=
+    decode_own_from [] rows.
+
+  (** every category path the reader can see, each ONCE, with the amount of
+      the row in which its last segment is printed: a row with parent path
+      [pp] and own segments [s1; ..; sk] shows [pp ++ [s1]], [pp ++ [s1; s2]],
+      ..., all with the row's amount *)
+  Definition shown_paths (rows : list row) : list (list bytes * T) :=
+    flat_map (fun d => let '(pp, own, x) := d in map (fun o => (pp ++ o, x)) (prefixes own))
+             (decode_own rows).
+
+  (** [go_eq_chain y x]: [x] is reached from [y] through amounts each Go-equal
+      ([==], [t_eqb]) to the one before; no law of [Num] makes [t_eqb]
+      transitive or reflexive (NaN), hence the chain *)
+  Inductive go_eq_chain : T -> T -> Prop :=
+  | gec_refl : forall y, go_eq_chain y y
+  | gec_step : forall y x z, go_eq_chain y x -> t_eqb NM z x = true -> go_eq_chain y z.
+
+  (** the same path, and the amount shown is linked to the node's total by Go-equalities *)
+  Definition same_path_go_equal (shown node : list bytes * T) : Prop :=
+    fst shown = fst node /\ go_eq_chain (snd shown) (snd node).
+
+  (** laws of Go's [==] that hold of float64 resp. of exact numbers, used as
+      explicit hypotheses where a theorem needs them *)
+  Definition go_eq_transitive : Prop :=
+    forall a b c : T, t_eqb NM a b = true -> t_eqb NM b c = true -> t_eqb NM a c = true.
+  Definition go_eq_is_eq : Prop := forall a b : T, t_eqb NM a b = true -> a = b.
+
+  (** a chain = the (segment, node total) pairs of the nodes joined in one row;
+      the (path, total) of these nodes below the parent path [pp] *)
+  Fixpoint chain_paths (pp : list bytes) (chain : list (bytes * T)) : list (list bytes * T) :=
+    match chain with
+    | [] => []
+    | (n, x) :: r => (pp ++ [n], x) :: chain_paths (pp ++ [n]) r
+    end.
+
+  (** every total of the chain is Go-equal to the one before it, starting from [x] *)
+  Fixpoint eq_from (x : T) (chain : list (bytes * T)) : Prop :=
+    match chain with
+    | [] => True
+    | (_, z) :: r => t_eqb NM z x = true /\ eq_from z r
+    end.
+
+  (** an honest joined row: the amount shown is the total of the first node of
+      the chain, and each further node's total is Go-equal to its parent's *)
+  Definition joined_ok (y : T) (chain : list (bytes * T)) : Prop :=
+    match chain with
+    | [] => False
+    | (_, x) :: r => x = y /\ eq_from x r
+    end.
+
+  (** the rows account for the whole tree: one can write a node total next to
+      every segment of every row such that every row is an honest joined row
+      and the (path, total) pairs read off that way are exactly the nodes of
+      the tree, each once, in pre-order *)
+  Definition rows_account_for (t : tree) (rows : list row) : Prop :=
+    exists rds : list (list bytes * list (bytes * T) * T),
+      map (fun rd => let '(pp, chain, y) := rd in (pp, map fst chain, y)) rds = decode_own rows /\
+      Forall (fun rd => let '(pp, chain, y) := rd in joined_ok y chain) rds /\
+      flat_map (fun rd => let '(pp, chain, y) := rd in chain_paths pp chain) rds = tree_paths NM t.
+
   (** what the three display modes print for an (ordered) tree *)
   Definition rows_plain (t : tree) : list row := print_node NM false O t.
   Definition rows_collapse_last (t : tree) : list row := print_node NM true O t.
